@@ -344,17 +344,370 @@ pub fn run(rep: &mut Report) {
     frontend_scenarios(rep, &pool, &res);
     request_server_scenarios(rep, &pool, &res);
     coop::disable();
+    daemon_part::run(rep, thorough);
     rep.states = rep.outcomes.len() as u64;
     rep.traces = rep.evaluations;
-    rep.exhaustive = true;
+    rep.exhaustive = rep.caps.is_empty();
     rep.sample(json!({"part":"server","req":"SET_MEM_TABLE[2]","shape":"SizePlus1","nfds":33,"teardown":1,"expect":"all 33 descriptors closed, fd table unchanged"}));
     rep.sample(json!({"part":"server","req":"SET_VRING_KICK[fd]","shape":"Valid","nfds":1,"handler_keeps_files":true,"expect":"exactly one extra descriptor: the one the application holds"}));
     rep.sample(json!({"part":"frontend_reply","op":"GetFeatures","nfds":3,"expect":"reply rejected, 3 descriptors closed"}));
-    rep.rule = "backend server: every request type x {valid, size+1, truncated body, REPLY flag, invalid body, unknown code} x descriptor count in {0,1,2,(3,31,)32,33,40} attached to header or body x negotiation state x optional second descriptor-carrying message x teardown before / after the first / after the second message x handler keeps or drops its files; frontend: every operation's reply with 0..=33 unexpected descriptors, and a full successful session with lent descriptors; frontend request server: 5 kinds x 0..=40 descriptors. Every passed descriptor is a distinct memfd. Oracle: after dropping the endpoints, for every passed file #open descriptors = 1 (original) + copies the application holds, no identity delivered twice, and the process's descriptor numbers = before + held. Non-trivial = scenarios whose accounting was verified".into();
+    rep.rule = "backend server: every request type x {valid, size+1, truncated body, REPLY flag, invalid body, unknown code} x descriptor count in {0,1,2,(3,31,)32,33,40} attached to header or body x negotiation state x optional second descriptor-carrying message x teardown before / after the first / after the second message x handler keeps or drops its files; frontend: every operation's reply with 0..=33 unexpected descriptors, and a full successful session with lent descriptors; frontend request server: 5 kinds x 0..=40 descriptors; running daemon: all sequences of length <= 2 and the length-3 sequences starting with a descriptor hand-over (all at thorough) over 18 descriptor-passing / releasing operations. Every passed descriptor is a distinct file. Oracle: after dropping the endpoints, for every passed file #open descriptors = 1 (original) + copies the application holds, no identity delivered twice, and the process's descriptor numbers = before + held. Non-trivial = scenarios whose accounting was verified".into();
     rep.assumptions.push("serial execution inside the process (no concurrent open); identity via fstat (st_dev, st_ino)".into());
 }
 
 pub fn replay(case: &Value, rep: &mut Report) {
     println!("replay C09 by re-running the quick enumeration; case: {case}");
     run(rep);
+}
+
+// ------------------------------------------------------------------------------------------------
+// daemon level: descriptors handed to a running VhostUserDaemon (kick / call / err descriptors,
+// memory-table files, log file, backend-request socket, descriptors of rejected messages)
+
+mod daemon_part {
+    use crate::daemonh::*;
+    use crate::rawpeer::{eventfd, ident, memfd};
+    use crate::report::Report;
+    use crate::spec::*;
+    use serde_json::json;
+    use std::os::unix::io::{AsRawFd, OwnedFd, RawFd};
+    use vhost_user_backend::bitmap::BitmapMmapRegion;
+    use vhost_user_backend::VringRwLock;
+
+    type H = DaemonH<VringRwLock<GM<BitmapMmapRegion>>, BitmapMmapRegion>;
+    const PROTO: u64 = PF_REPLY_ACK | PF_LOG_SHMFD | PF_CONFIGURE_MEM_SLOTS | PF_MQ | PF_RESET_DEVICE | PF_BACKEND_REQ;
+    const VIRTIO: u64 = VIRTIO_F_PROTOCOL_FEATURES | VIRTIO_F_LOG_ALL | 0x3;
+    const USER: u64 = 0x7f00_0000_0000;
+
+    /// Identity of an open file: (dev, ino) for files and sockets, the kernel's eventfd id for
+    /// eventfds (which all share one anonymous inode).
+    #[derive(Clone, Debug, PartialEq, Eq, PartialOrd, Ord)]
+    pub enum Id {
+        Inode(u64, u64),
+        EventFd(u64),
+    }
+
+    pub fn id_of(fd: RawFd) -> Option<Id> {
+        let link = std::fs::read_link(format!("/proc/self/fd/{fd}")).ok()?.to_string_lossy().to_string();
+        if link.contains("[eventfd]") {
+            let info = std::fs::read_to_string(format!("/proc/self/fdinfo/{fd}")).ok()?;
+            let n = info.lines().find_map(|l| l.strip_prefix("eventfd-id:").map(|v| v.trim().parse::<u64>().ok()))??;
+            return Some(Id::EventFd(n));
+        }
+        let (d, i) = ident(fd);
+        Some(Id::Inode(d, i))
+    }
+
+    /// How many descriptors of this process refer to each identity.
+    fn census() -> std::collections::BTreeMap<Id, usize> {
+        let mut out = std::collections::BTreeMap::new();
+        let mut nums: Vec<RawFd> = Vec::new();
+        if let Ok(rd) = std::fs::read_dir("/proc/self/fd") {
+            for e in rd.flatten() {
+                if let Ok(n) = e.file_name().to_string_lossy().parse::<RawFd>() {
+                    nums.push(n);
+                }
+            }
+        }
+        for n in nums {
+            if let Some(id) = id_of(n) {
+                *out.entry(id).or_insert(0) += 1;
+            }
+        }
+        out
+    }
+
+    #[derive(Clone, Copy, Debug, PartialEq)]
+    pub enum Op {
+        TableNew,
+        TableFail,
+        AddReg,
+        RemReg,
+        Kick0,
+        Kick0None,
+        Call0,
+        Call0None,
+        Err0,
+        Kick1,
+        GetBase0,
+        LogBase,
+        BackendReqFd,
+        InflightFd,
+        BadFdOnNum,
+        BadTwoFds,
+        ResetDevice,
+        Reconnect,
+    }
+
+    pub const OPS: [Op; 18] = [
+        Op::TableNew, Op::TableFail, Op::AddReg, Op::RemReg, Op::Kick0, Op::Kick0None, Op::Call0, Op::Call0None, Op::Err0, Op::Kick1, Op::GetBase0, Op::LogBase,
+        Op::BackendReqFd, Op::InflightFd, Op::BadFdOnNum, Op::BadTwoFds, Op::ResetDevice, Op::Reconnect,
+    ];
+
+    struct Obj {
+        fd: OwnedFd,
+        id: Id,
+        passed_by: Op,
+        /// the daemon may currently hold a copy
+        may_hold: bool,
+    }
+
+    #[derive(Default)]
+    struct Model {
+        table: Vec<usize>,
+        added: Option<usize>,
+        kick: [Option<usize>; 2],
+        call0: Option<usize>,
+        err0: Option<usize>,
+        log: Option<usize>,
+        breq: Option<usize>,
+    }
+
+    fn new_obj(objs: &mut Vec<Obj>, kind: u8, by: Op) -> usize {
+        let (fd, other): (OwnedFd, Option<OwnedFd>) = match kind {
+            0 => (memfd("c09d", 0x8000), None),
+            1 => (eventfd(0, true), None),
+            _ => {
+                let (a, b) = std::os::unix::net::UnixStream::pair().unwrap();
+                (a.into(), Some(b.into()))
+            }
+        };
+        // the other end of a socket pair is simply dropped: only the passed end is accounted for
+        drop(other);
+        let id = id_of(fd.as_raw_fd()).expect("identity of a fresh descriptor");
+        objs.push(Obj { fd, id, passed_by: by, may_hold: false });
+        objs.len() - 1
+    }
+
+    fn step(h: &mut H, op: Op, objs: &mut Vec<Obj>, m: &mut Model) -> Result<(), String> {
+        let region = |gpa: u64, off: u64| Region { gpa, size: 0x4000, user: USER + gpa, offset: off };
+        let mut renegotiate = false;
+        let out = match op {
+            Op::TableNew => {
+                let o = new_obj(objs, 0, op);
+                let r = h.req(SET_MEM_TABLE, &p_mem_table(&[region(0, 0)]), &[objs[o].fd.as_raw_fd()]);
+                if matches!(&r, ReqOut::Msg(d, _) if rd64(&d.payload, 0) == 0) {
+                    m.table = vec![o];
+                    m.added = None;
+                }
+                r
+            }
+            Op::TableFail => {
+                // a region whose descriptor cannot be mapped (eventfd) next to a good one
+                let a = new_obj(objs, 0, op);
+                let b = new_obj(objs, 1, op);
+                h.req(SET_MEM_TABLE, &p_mem_table(&[region(0, 0), region(0x10_0000, 0)]), &[objs[a].fd.as_raw_fd(), objs[b].fd.as_raw_fd()])
+            }
+            Op::AddReg => {
+                let o = new_obj(objs, 0, op);
+                let r = h.req(ADD_MEM_REG, &p_single_region(&region(0x20_0000, 0x4000)), &[objs[o].fd.as_raw_fd()]);
+                if matches!(&r, ReqOut::Msg(d, _) if rd64(&d.payload, 0) == 0) {
+                    m.added = Some(o);
+                }
+                r
+            }
+            Op::RemReg => {
+                let r = h.req(REM_MEM_REG, &p_single_region(&region(0x20_0000, 0x4000)), &[]);
+                if matches!(&r, ReqOut::Msg(d, _) if rd64(&d.payload, 0) == 0) {
+                    m.added = None;
+                }
+                r
+            }
+            Op::Kick0 | Op::Kick1 | Op::Call0 | Op::Err0 => {
+                let o = new_obj(objs, 1, op);
+                let (code, idx) = match op {
+                    Op::Kick0 => (SET_VRING_KICK, 0u64),
+                    Op::Kick1 => (SET_VRING_KICK, 1),
+                    Op::Call0 => (SET_VRING_CALL, 0),
+                    _ => (SET_VRING_ERR, 0),
+                };
+                let r = h.req(code, &p_u64(idx), &[objs[o].fd.as_raw_fd()]);
+                if matches!(&r, ReqOut::Msg(d, _) if rd64(&d.payload, 0) == 0) {
+                    match op {
+                        Op::Kick0 => m.kick[0] = Some(o),
+                        Op::Kick1 => m.kick[1] = Some(o),
+                        Op::Call0 => m.call0 = Some(o),
+                        _ => m.err0 = Some(o),
+                    }
+                }
+                r
+            }
+            Op::Kick0None => {
+                let r = h.req(SET_VRING_KICK, &p_u64(0x100), &[]);
+                if matches!(&r, ReqOut::Msg(d, _) if rd64(&d.payload, 0) == 0) {
+                    m.kick[0] = None;
+                }
+                r
+            }
+            Op::Call0None => {
+                let r = h.req(SET_VRING_CALL, &p_u64(0x100), &[]);
+                if matches!(&r, ReqOut::Msg(d, _) if rd64(&d.payload, 0) == 0) {
+                    m.call0 = None;
+                }
+                r
+            }
+            Op::GetBase0 => {
+                let r = h.req(GET_VRING_BASE, &p_vring_state(0, 0), &[]);
+                if matches!(&r, ReqOut::Msg(..)) {
+                    m.kick[0] = None;
+                    m.call0 = None;
+                }
+                r
+            }
+            Op::LogBase => {
+                let o = new_obj(objs, 0, op);
+                let r = h.req(SET_LOG_BASE, &p_log(0x1000, 0), &[objs[o].fd.as_raw_fd()]);
+                if matches!(&r, ReqOut::Msg(d, _) if d.code == SET_LOG_BASE) {
+                    m.log = Some(o);
+                }
+                r
+            }
+            Op::BackendReqFd => {
+                let o = new_obj(objs, 2, op);
+                let r = h.req(SET_BACKEND_REQ_FD, &[], &[objs[o].fd.as_raw_fd()]);
+                if matches!(&r, ReqOut::Msg(d, _) if rd64(&d.payload, 0) == 0) {
+                    m.breq = Some(o);
+                }
+                r
+            }
+            Op::InflightFd => {
+                let o = new_obj(objs, 0, op);
+                h.req(SET_INFLIGHT_FD, &p_inflight(0x1000, 0, 2, 256), &[objs[o].fd.as_raw_fd()])
+            }
+            Op::BadFdOnNum => {
+                let o = new_obj(objs, 0, op);
+                h.req(SET_VRING_NUM, &p_vring_state(0, 64), &[objs[o].fd.as_raw_fd()])
+            }
+            Op::BadTwoFds => {
+                let a = new_obj(objs, 1, op);
+                let b = new_obj(objs, 1, op);
+                h.req(SET_VRING_KICK, &p_u64(0), &[objs[a].fd.as_raw_fd(), objs[b].fd.as_raw_fd()])
+            }
+            Op::ResetDevice => h.req(RESET_DEVICE, &[], &[]),
+            Op::Reconnect => {
+                renegotiate = true;
+                ReqOut::Closed
+            }
+        };
+        match out {
+            ReqOut::Dead(e) => return Err(e),
+            ReqOut::Closed => renegotiate = true,
+            ReqOut::Msg(d, _) => {
+                if reply_kind(d.code) == ReplyKind::AckOnly && d.code != SET_LOG_BASE && d.size == 8 && rd64(&d.payload, 0) != 0 {
+                    renegotiate = true; // a failing request ends the session
+                }
+            }
+        }
+        if renegotiate {
+            let _ = h.reconnect();
+            h.negotiate(VIRTIO, PROTO).map_err(|e| format!("renegotiation failed: {e}"))?;
+        }
+        // which objects may the daemon (or the application behind it) hold now?
+        for o in objs.iter_mut() {
+            o.may_hold = false;
+        }
+        let mut hold = |i: Option<usize>| {
+            if let Some(i) = i {
+                objs[i].may_hold = true;
+            }
+        };
+        for t in m.table.clone() {
+            hold(Some(t));
+        }
+        hold(m.added);
+        hold(m.kick[0]);
+        hold(m.kick[1]);
+        hold(m.call0);
+        hold(m.err0);
+        hold(m.log);
+        hold(m.breq);
+        Ok(())
+    }
+
+    pub fn run(rep: &mut Report, thorough: bool) {
+        install_panic_watch();
+        let n = OPS.len();
+        let mut seqs: Vec<Vec<usize>> = Vec::new();
+        for a in 0..n {
+            seqs.push(vec![a]);
+            for b in 0..n {
+                seqs.push(vec![a, b]);
+                for c in 0..n {
+                    // length 3: all at thorough; at quick those that start by handing a descriptor over
+                    if thorough || !matches!(OPS[a], Op::RemReg | Op::Kick0None | Op::Call0None | Op::GetBase0 | Op::ResetDevice | Op::Reconnect) {
+                        seqs.push(vec![a, b, c]);
+                    }
+                }
+            }
+        }
+        let start = std::time::Instant::now();
+        let budget = if thorough { 1800.0 } else { 240.0 };
+        let mut done = 0u64;
+        for seq in &seqs {
+            if start.elapsed().as_secs_f64() > budget {
+                rep.caps.push(format!("daemon part: wall budget {budget}s hit after {done} of {} sequences", seqs.len()));
+                break;
+            }
+            let labels: Vec<String> = seq.iter().map(|i| format!("{:?}", OPS[*i])).collect();
+            crate::crash::set_case(&format!("{{\"property\":\"C09\",\"signature\":\"C09:process-killed-by-signal\",\"case\":{{\"check\":\"C09\",\"part\":\"daemon\",\"sequence\":{:?}}}}}", labels));
+            let case = json!({"check":"C09","part":"daemon","sequence":labels});
+            let cfg = Cfg { features: VIRTIO | (1 << 29), ..Default::default() };
+            let mut h = H::new(cfg);
+            if let Err(e) = h.negotiate(VIRTIO, PROTO) {
+                rep.violation("C09:daemon:negotiation", &e, case);
+                continue;
+            }
+            let mut objs: Vec<Obj> = Vec::new();
+            let mut m = Model::default();
+            let mut broken: Option<String> = None;
+            for (k, i) in seq.iter().enumerate() {
+                if let Err(e) = step(&mut h, OPS[*i], &mut objs, &mut m) {
+                    broken = Some(e);
+                    break;
+                }
+                rep.transitions += 1;
+                // during the session: nothing the library no longer needs may stay open, and nothing
+                // the harness owns may have been closed
+                let c = census();
+                for o in &objs {
+                    let open = c.get(&o.id).cloned().unwrap_or(0);
+                    let max = 1 + o.may_hold as usize;
+                    if open == 0 {
+                        rep.violation("C09:daemon:closed-a-descriptor-it-does-not-own", &format!("after step {k} of {:?}: the harness's own descriptor of the file passed by {:?} is closed", labels, o.passed_by), case.clone());
+                    } else if open > max {
+                        rep.outcome("daemon:descriptor-accumulates");
+                        rep.violation(&format!("C09:daemon:descriptor-kept:{:?}", o.passed_by), &format!("after step {k} of {:?}: {open} open descriptors refer to the file passed by {:?}, at most {max} expected (the original{})", labels, o.passed_by, if o.may_hold { " + the copy in use" } else { "; it was replaced, released or rejected" }), case.clone());
+                    }
+                }
+            }
+            let panics = take_panics();
+            if let Some(p) = panics.first() {
+                rep.violation("C09:daemon:panic", &format!("{:?}: {p}", labels), case.clone());
+            }
+            // teardown: every passed descriptor is closed by the library, only the originals remain
+            drop(h);
+            let c = census();
+            rep.evaluations += 1;
+            done += 1;
+            let mut leaked = false;
+            for o in &objs {
+                let open = c.get(&o.id).cloned().unwrap_or(0);
+                if open != 1 {
+                    leaked = true;
+                    rep.violation(&format!("C09:daemon:leak-after-teardown:{:?}", o.passed_by), &format!("{:?}: after dropping the daemon {open} open descriptor(s) refer to the file passed by {:?} (expected 1: the harness's original)", labels, o.passed_by), case.clone());
+                }
+            }
+            if broken.is_some() {
+                rep.outcome("daemon:session-broken");
+            } else if leaked {
+                rep.outcome("daemon:leak");
+            } else {
+                rep.outcome(if objs.is_empty() { "daemon:no-descriptor-passed" } else { "daemon:accounted" });
+                if !objs.is_empty() {
+                    rep.nontrivial += 1;
+                }
+            }
+        }
+        rep.extra.insert("daemon_sequences".into(), json!(done));
+    }
 }
